@@ -87,6 +87,147 @@ theorem splitNameDim_append (n : Str) : (splitNameDim n).1 ++ (splitNameDim n).2
   unfold splitNameDim
   split <;> simp
 
+theorem findIdx?_skip (p : Char) : ∀ (nm rest : Str) (i : Nat), (∀ x ∈ nm, x ≠ p) →
+    findIdx? p (nm ++ rest) i = findIdx? p rest (i + nm.length)
+  | [], rest, i, _ => by simp
+  | x :: nm, rest, i, h => by
+    have hx : (x == p) = false := by simpa using h x (by simp)
+    have ih := findIdx?_skip p nm rest (i + 1) (fun y hy => h y (by simp [hy]))
+    simp only [List.cons_append, findIdx?, hx, Bool.false_eq_true, if_false, ih, List.length_cons]
+    congr 1; omega
+
+theorem findIdx?_ge (p : Char) : ∀ (s : Str) (i j : Nat), findIdx? p s i = some j → i ≤ j
+  | [], _, _, h => by simp [findIdx?] at h
+  | c :: cs, i, j, h => by
+    simp only [findIdx?] at h
+    split at h
+    · simp at h; omega
+    · have := findIdx?_ge p cs (i + 1) j h; omega
+
+/-- position of a delimiter in `nm ++ c :: rest` when `nm` (non-empty) has none: at the end of `nm` if it is `c`,
+    behind it otherwise -/
+theorem posIdx_skip (p c : Char) (nm rest : Str) (hne : nm ≠ []) (h : ∀ x ∈ nm, x ≠ p) :
+    (c = p → posIdx p (nm ++ c :: rest) = some nm.length) ∧
+    (∀ j, posIdx p (nm ++ c :: rest) = some j → nm.length ≤ j) := by
+  have hl : 0 < nm.length := List.length_pos_iff.mpr hne
+  have hf := findIdx?_skip p nm (c :: rest) 0 h
+  simp only [Nat.zero_add] at hf
+  constructor
+  · intro e
+    subst e
+    unfold posIdx
+    rw [hf]
+    simp only [findIdx?, beq_self_eq_true, if_true]
+    split
+    · rename_i h0; simp only [Option.some.injEq] at h0; omega
+    · rename_i r _ ; rfl
+  · intro j hj
+    unfold posIdx at hj
+    rw [hf] at hj
+    split at hj
+    · cases hj
+    · exact findIdx?_ge p _ _ _ hj
+
+theorem minOpt_some_le (n : Nat) (a b : Option Nat) (ha : a = some n ∨ (∀ j, a = some j → n ≤ j))
+    (hb : b = some n ∨ (∀ j, b = some j → n ≤ j)) (h : a = some n ∨ b = some n) :
+    minOpt a b = some n ∨ False := by
+  left
+  rcases a with _ | x <;> rcases b with _ | y
+  · simp at h
+  · rcases h with h | h
+    · cases h
+    · simp [minOpt, h]
+  · rcases h with h | h
+    · simp [minOpt, h]
+    · cases h
+  · have hx : n ≤ x := by
+      rcases ha with ha | ha
+      · simp at ha; omega
+      · exact ha x rfl
+    have hy : n ≤ y := by
+      rcases hb with hb | hb
+      · simp at hb; omega
+      · exact hb y rfl
+    have : x = n ∨ y = n := by
+      rcases h with h | h
+      · left; simpa using h
+      · right; simpa using h
+    simp only [minOpt, Option.some.injEq]
+    omega
+
+/-- the name of an entity is the text in front of its first `(`, `[` or `*`, whichever of the three comes
+    first *in the text* -/
+theorem splitNameDim_leading (nm rest : Str) (c : Char) (hne : nm ≠ [])
+    (h : ∀ x ∈ nm, isNameDelim x = false) (hc : isNameDelim c = true) :
+    splitNameDim (nm ++ c :: rest) = (nm, c :: rest) := by
+  have hp : ∀ x ∈ nm, x ≠ '(' := fun x hx e => by have := h x hx; simp [isNameDelim, e] at this
+  have hb : ∀ x ∈ nm, x ≠ '[' := fun x hx e => by have := h x hx; simp [isNameDelim, e] at this
+  have hs : ∀ x ∈ nm, x ≠ '*' := fun x hx e => by have := h x hx; simp [isNameDelim, e] at this
+  have P := posIdx_skip '(' c nm rest hne hp
+  have B := posIdx_skip '[' c nm rest hne hb
+  have S := posIdx_skip '*' c nm rest hne hs
+  have hcase : c = '(' ∨ c = '[' ∨ c = '*' := by
+    simp only [isNameDelim, Bool.or_eq_true, beq_iff_eq] at hc
+    rcases hc with (hc | hc) | hc
+    · exact Or.inl hc
+    · exact Or.inr (Or.inl hc)
+    · exact Or.inr (Or.inr hc)
+  have inner : minOpt (posIdx '[' (nm ++ c :: rest)) (posIdx '*' (nm ++ c :: rest)) = some nm.length ∨
+      (∀ j, minOpt (posIdx '[' (nm ++ c :: rest)) (posIdx '*' (nm ++ c :: rest)) = some j → nm.length ≤ j) := by
+    rcases hcase with e | e | e
+    · right
+      intro j hj
+      rcases hb' : posIdx '[' (nm ++ c :: rest) with _ | x <;> rcases hs' : posIdx '*' (nm ++ c :: rest) with _ | y <;>
+        simp only [hb', hs', minOpt] at hj
+      · cases hj
+      · cases hj; exact S.2 _ hs'
+      · cases hj; exact B.2 _ hb'
+      · have := B.2 _ hb'; have := S.2 _ hs'
+        simp only [Option.some.injEq] at hj; omega
+    · left
+      have := minOpt_some_le nm.length _ _ (Or.inl (B.1 e)) (Or.inr S.2) (Or.inl (B.1 e))
+      simpa using this
+    · left
+      have := minOpt_some_le nm.length _ _ (Or.inr B.2) (Or.inl (S.1 e)) (Or.inr (S.1 e))
+      simpa using this
+  have outer : minOpt (posIdx '(' (nm ++ c :: rest))
+      (minOpt (posIdx '[' (nm ++ c :: rest)) (posIdx '*' (nm ++ c :: rest))) = some nm.length := by
+    have hP : posIdx '(' (nm ++ c :: rest) = some nm.length ∨ (∀ j, posIdx '(' (nm ++ c :: rest) = some j → nm.length ≤ j) := by
+      rcases hcase with e | e | e
+      · exact Or.inl (P.1 e)
+      · exact Or.inr P.2
+      · exact Or.inr P.2
+    have hone : posIdx '(' (nm ++ c :: rest) = some nm.length ∨
+        minOpt (posIdx '[' (nm ++ c :: rest)) (posIdx '*' (nm ++ c :: rest)) = some nm.length := by
+      rcases hcase with e | e | e
+      · exact Or.inl (P.1 e)
+      · right
+        have := minOpt_some_le nm.length _ _ (Or.inl (B.1 e)) (Or.inr S.2) (Or.inl (B.1 e))
+        simpa using this
+      · right
+        have := minOpt_some_le nm.length _ _ (Or.inr B.2) (Or.inl (S.1 e)) (Or.inr (S.1 e))
+        simpa using this
+    have := minOpt_some_le nm.length _ _ hP inner hone
+    simpa using this
+  unfold splitNameDim
+  rw [outer]
+  simp
+
+theorem posIdx_none_of_absent (p : Char) (nm : Str) (h : ∀ x ∈ nm, x ≠ p) : posIdx p nm = none := by
+  have hf := findIdx?_skip p nm [] 0 h
+  simp only [List.append_nil] at hf
+  unfold posIdx
+  rw [hf]
+  simp [findIdx?]
+
+theorem splitNameDim_plain (nm : Str) (h : ∀ x ∈ nm, isNameDelim x = false) : splitNameDim nm = (nm, []) := by
+  have hp : ∀ x ∈ nm, x ≠ '(' := fun x hx e => by have := h x hx; simp [isNameDelim, e] at this
+  have hb : ∀ x ∈ nm, x ≠ '[' := fun x hx e => by have := h x hx; simp [isNameDelim, e] at this
+  have hs : ∀ x ∈ nm, x ≠ '*' := fun x hx e => by have := h x hx; simp [isNameDelim, e] at this
+  unfold splitNameDim
+  rw [posIdx_none_of_absent _ _ hp, posIdx_none_of_absent _ _ hb, posIdx_none_of_absent _ _ hs]
+  rfl
+
 theorem takeWhile_all (p : Char → Bool) (e : Str) (h : ∀ c ∈ e, p c = true) : e.takeWhile p = e := by
   induction e with
   | nil => rfl
